@@ -9,10 +9,10 @@ DISTINCT_RULE = (
     "cases = seeded books (0-8 levels, gaps, empty sides, tiny/huge sizes) x limit orders through/at/behind the book; distinct = "
     "(side, price relative to best, FOK?, min-fill class, BPE, book depth<=4, response status) cells actually reached in SimulatedOrder.place"
 )
-RULES = ["placement", "level", "fok", "bpe-off", "fragment"]
-MINIMA = {"quick": {"rule_placement": 8000, "rule_fok": 1500, "rule_bpe-off": 800, "rule_fragment": 4000}, "thorough": {"rule_placement": 300000}}
+RULES = ["placement", "level", "fok", "bpe-off", "fragment", "available"]
+MINIMA = {"quick": {"rule_placement": 8000, "rule_fok": 1500, "rule_bpe-off": 800, "rule_fragment": 4000, "rule_available": 300}, "thorough": {"rule_placement": 300000}}
 ASSUMPTIONS = ["book snapshot = runner.ex ladders copied at entry of SimulatedOrder.place", "simulated_full_match runs are exempt from the level clause only"]
-WEIGHTS = [("thin", 3), ("deep", 4), ("nobpe", 3), ("fullmatch", 1), ("hostile", 1), ("recorded", 2)]
+WEIGHTS = [("thin", 3), ("deep", 4), ("nobpe", 3), ("fullmatch", 1), ("lines", 2), ("availprices", 2), ("hostile", 1), ("recorded", 2)]
 SCRIPT = {"n_orders": (4, 12), "p_cancel": 0.1, "p_update": 0.05, "p_replace": 0.25}
 
 
@@ -31,4 +31,5 @@ def run(desc):
     out = O.Out(PROPERTY)
     O.abort_violation(tr, out)
     O.c05_fills(tr, out)
+    O.c05_available(tr, out, snaps)
     return out.result(sample=_sim.sample_of(case, tr) if desc["idx"] < 2 else None)
